@@ -301,13 +301,91 @@ func runC08(c *Ctx) {
 		if overflow {
 			c.unproven(fn, "paths", fn.Pos(), "too many paths")
 		}
+		type conds struct{ lenGE2, lenGT0, utf8ok, codeok string }
+		condsOf := func(lits []Lit, cd *conds) {
+			for _, l := range lits {
+				op, x, y, isCmp := l.cmp()
+				if isCmp {
+					if lc, ok := strip(x).(*ssa.Call); ok {
+						if b, ok := lc.Call.Value.(*ssa.Builtin); ok && b.Name() == "len" {
+							k, _ := constInt(y)
+							switch {
+							case op == token.GEQ && k == 2, op == token.GTR && k == 1:
+								cd.lenGE2 = "t"
+							case op == token.LSS && k == 2, op == token.LEQ && k == 1:
+								cd.lenGE2 = "f"
+							case op == token.GTR && k == 0, op == token.GEQ && k == 1, op == token.NEQ && k == 0:
+								cd.lenGT0 = "t"
+							case op == token.LEQ && k == 0, op == token.LSS && k == 1, op == token.EQL && k == 0:
+								cd.lenGT0 = "f"
+							}
+						}
+					}
+				}
+				if call, ok := l.Cond.(*ssa.Call); ok {
+					if isCallTo(call, utf8Valid) {
+						cd.utf8ok = map[bool]string{true: "t", false: "f"}[l.Pos]
+					}
+					if isCallToFn(call, w.validCloseCode) {
+						cd.codeok = map[bool]string{true: "t", false: "f"}[l.Pos]
+					}
+				}
+			}
+		}
+		wantOf := func(cd conds) string {
+			// len == 0 implies len < 2; len >= 2 implies len > 0
+			if cd.lenGT0 == "f" {
+				cd.lenGE2 = "f"
+			}
+			if cd.lenGE2 == "t" {
+				cd.lenGT0 = "t"
+			}
+			switch {
+			case cd.lenGE2 == "t" && cd.utf8ok == "t" && cd.codeok == "t":
+				return "echo"
+			case cd.lenGE2 == "f" && cd.lenGT0 == "f":
+				return "1000"
+			}
+			return "1002"
+		}
+		// replyKind classifies the payload handed to prepareClose; echo = the received frame's payload (directly, or the
+		// helper parameter bound to it)
+		replyKind := func(v ssa.Value, echo map[ssa.Value]bool) string {
+			v = strip(v)
+			if echo[v] {
+				return "echo"
+			}
+			if call, ok := v.(*ssa.Call); ok {
+				if isCallToFn(call, w.encodeCloseCode) {
+					if k, ok := constInt(call.Call.Args[0]); ok {
+						switch k {
+						case normal:
+							return "1000"
+						case protoErr:
+							return "1002"
+						}
+						return fmt.Sprint(k)
+					}
+				}
+				if isCallToFn(call, w.payloadM) && strip(call.Call.Args[0]) == ssa.Value(fn.Params[1]) {
+					return "echo"
+				}
+			}
+			return "?"
+		}
+		litsOf := func(path *Path) []Lit {
+			var out []Lit
+			for _, l := range path.Lits {
+				out = append(out, l.Lit)
+			}
+			return out
+		}
 		seen := map[string]bool{}
 		for _, path := range paths {
 			if path.Panics {
 				continue
 			}
 			isClose, isActive := false, false
-			lenGE2, lenGT0, utf8ok, codeok := "", "", "", ""
 			for _, l := range path.Lits {
 				op, x, y, isCmp := l.cmp()
 				if isCmp && op == token.EQL && isConstInt(y, opClose) {
@@ -318,80 +396,61 @@ func runC08(c *Ctx) {
 				if k, eq, ok := enumTest(l.Lit, w.state); ok && eq && k == w.stActive {
 					isActive = true
 				}
-				if isCmp {
-					if lc, ok := strip(x).(*ssa.Call); ok {
-						if b, ok := lc.Call.Value.(*ssa.Builtin); ok && b.Name() == "len" {
-							k, _ := constInt(y)
-							switch {
-							case op == token.GEQ && k == 2, op == token.GTR && k == 1:
-								lenGE2 = "t"
-							case op == token.LSS && k == 2, op == token.LEQ && k == 1:
-								lenGE2 = "f"
-							case op == token.GTR && k == 0, op == token.GEQ && k == 1, op == token.NEQ && k == 0:
-								lenGT0 = "t"
-							case op == token.LEQ && k == 0, op == token.LSS && k == 1, op == token.EQL && k == 0:
-								lenGT0 = "f"
-							}
-						}
-					}
-				}
-				if call, ok := l.Cond.(*ssa.Call); ok {
-					if isCallTo(call, utf8Valid) {
-						utf8ok = map[bool]string{true: "t", false: "f"}[l.Pos]
-					}
-					if isCallToFn(call, w.validCloseCode) {
-						codeok = map[bool]string{true: "t", false: "f"}[l.Pos]
-					}
-				}
 			}
 			if !isClose || !isActive {
 				continue
 			}
+			var cd conds
+			condsOf(litsOf(path), &cd)
 			var replies []*ssa.Call
 			for _, in := range path.Instrs() {
 				if isCallToFn(in, w.prepareClose) {
 					replies = append(replies, in.(*ssa.Call))
 				}
 			}
-			want := "1002"
-			switch {
-			case lenGE2 == "t" && utf8ok == "t" && codeok == "t":
-				want = "echo"
-			case lenGE2 == "f" && lenGT0 == "f":
-				want = "1000"
-			}
-			got := "none"
-			if len(replies) == 1 {
-				arg := strip(replies[0].Call.Args[1])
-				if call, ok := arg.(*ssa.Call); ok {
-					if isCallToFn(call, w.encodeCloseCode) {
-						if k, ok := constInt(call.Call.Args[0]); ok {
-							switch k {
-							case normal:
-								got = "1000"
-							case protoErr:
-								got = "1002"
-							default:
-								got = fmt.Sprint(k)
-							}
-						}
-					} else if isCallToFn(call, w.payloadM) && strip(call.Call.Args[0]) == ssa.Value(fn.Params[1]) {
-						got = "echo"
-					}
+			report := func(cd conds, got string, pos token.Pos) {
+				want := wantOf(cd)
+				cond := fmt.Sprintf("len>=2:%s len>0:%s utf8:%s code:%s", cd.lenGE2, cd.lenGT0, cd.utf8ok, cd.codeok)
+				if seen[cond] {
+					return
 				}
-			} else if len(replies) > 1 {
-				got = "several"
+				seen[cond] = true
+				c.check(got == want, fn, "close reply ["+cond+"]", pos, "replies "+got, fmt.Sprintf("a peer Close with %s is answered with %s, RFC 6455 requires %s", cond, got, want))
 			}
-			cond := fmt.Sprintf("len>=2:%s len>0:%s utf8:%s code:%s", lenGE2, lenGT0, utf8ok, codeok)
-			if seen[cond] {
-				continue
+			switch {
+			case len(replies) == 0:
+				report(cd, "none", fn.Pos())
+			case len(replies) > 1:
+				report(cd, "several", replies[0].Pos())
+			default:
+				arg := strip(replies[0].Call.Args[1])
+				// the reply chosen by a helper of this package: evaluate the table on the helper's own paths
+				if hc, ok := arg.(*ssa.Call); ok && hc.Call.StaticCallee() != nil && isHelperOf(fn, hc.Call.StaticCallee()) && !isCallToFn(hc, w.encodeCloseCode, w.payloadM) {
+					h := hc.Call.StaticCallee()
+					echo := map[ssa.Value]bool{}
+					for i, a := range hc.Call.Args {
+						if pc, ok := strip(a).(*ssa.Call); ok && isCallToFn(pc, w.payloadM) && i < len(h.Params) {
+							echo[h.Params[i]] = true
+						}
+					}
+					hpaths, hover := enumPaths(h)
+					if hover {
+						c.unproven(fn, "close reply", replies[0].Pos(), "too many paths in "+h.Name())
+						break
+					}
+					for _, hp := range hpaths {
+						ret := hp.Ret()
+						if ret == nil || len(ret.Results) == 0 {
+							continue
+						}
+						hcd := cd
+						condsOf(litsOf(hp), &hcd)
+						report(hcd, replyKind(hp.evalEnd(ret.Results[0]), echo), replies[0].Pos())
+					}
+					break
+				}
+				report(cd, replyKind(arg, nil), replies[0].Pos())
 			}
-			seen[cond] = true
-			pos := fn.Pos()
-			if len(replies) > 0 {
-				pos = replies[0].Pos()
-			}
-			c.check(got == want, fn, "close reply ["+cond+"]", pos, "replies "+got, fmt.Sprintf("a peer Close with %s is answered with %s, RFC 6455 requires %s", cond, got, want))
 		}
 	}
 
@@ -496,7 +555,10 @@ func runC08(c *Ctx) {
 						continue
 					}
 					for _, in := range b.Instrs {
-						if call, ok := in.(*ssa.Call); ok && isCallToFn(call, w.encodeClosePayload) && isConstInt(call.Call.Args[0], abnormal) {
+						if doesDeep(in, func(x ssa.Instruction) bool {
+							call, ok := x.(*ssa.Call)
+							return ok && isCallToFn(call, w.encodeClosePayload) && isConstInt(call.Call.Args[0], abnormal)
+						}) {
 							has1006 = true
 						}
 					}
